@@ -33,6 +33,8 @@ F = [
  ("C13","F33b","fixed",commit("nil reference node"),"known/C13/F33-replacechild-nil.json","ReplaceChild(p, nil, c) appended c and then panicked in RemoveChild(nil)"),
  ("C09","F34","fixed",commit("rendered without a trailing newline"),"known/C09/F34-html-block-at-eof-no-newline.json","with WithUnsafe, an HTML block whose last line ends the input without a line ending ('<!-- x -->', '<?php x ?>', '<script>x</script>') was rendered without a trailing newline, so rendering A alone differed from its part of the rendering of A, blank line, heading, blank line, B; reported as a by-product by two round-6 seeding sub-agents (C09, C10), then generated by the check once closed documents may end without a final line ending"),
  ("C02","F35","fixed",commit("sees the container marker"),"known/C02/F35-flanking-after-bare-quote-marker.json","'>*a' LF '>*)': BlockReader.PrecendingCharacter returned the byte physically in front of a continuation line (the bare '>' marker, punctuation), so a delimiter run at the beginning of that line counted as right-flanking and closed emphasis; with the equivalent spelling '> ' it did not (reported as a by-product by a round-6 seeding sub-agent; rediscovered by the multi-line emphasis tier added for it)"),
+ ("C02","F36","fixed",commit("less indentation than its fence"),"known/C02/F36-short-blank-line-in-indented-fence.json","a fenced code block indented N columns kept the spaces of a whitespace-only content line shorter than N ('  ~~~' LF ' ' LF '  ~~~' rendered a line holding one space): up to N columns of indentation are removed from every content line (by-product of a round-6 seeding sub-agent; rediscovered once the serialiser spells empty content lines with fewer spaces than the fence indent)"),
+ ("C02","F37","fixed",commit("tabs counted as 4 columns wherever they start"),"known/C02/F37-tab-blank-line-in-indented-code.json","an empty line of an indented code block spelled SPACE TAB (exactly four columns) kept one space: Segment.TrimLeftSpaceWidth counted a tab as four columns regardless of the column it starts at (by-product of a round-6 seeding sub-agent; rediscovered once the serialiser spells empty code lines with tabs)"),
  ("C17","F22","fixed",commit("table header"),"known/C17/F22-short-header.json","a header row with fewer cells than the delimiter row was padded and became a table"),
  ("C18","F11","fixed",commit("SetPosition/SetPadding"),"known/C18/F11-setposition-stale-peek.json","source reader SetPosition kept the stale peeked line / line head"),
  ("C18","F23","fixed",commit("ResetPosition"),"known/C18/F23-resetposition.json","source reader ResetPosition resumed at the end of the current line instead of the start of the source"),
